@@ -299,6 +299,21 @@ def stateful (s : Store) (w : List String) : Option (Store × String) :=
       let ecsopt := tree == ["ecsopt"]
       let req : Req := ⟨true, k.cd, if opt then some ⟨1232, true, []⟩ else if ecsopt then some ⟨1232, false, [8]⟩ else none⟩
       some (s, "hit " ++ fmtResp (response (some req)))
+  | ["fserve", n, t, c, cd, opt, now, primary, fallback] => do
+    let k ← parseQ [n, t, c, cd, "-"]; let opt ← parseBool opt; let now ← parseInt now
+    let up : String → Option Upstream := fun o =>
+      if o == "servfail" then some .servfail else if o == "refused" then some .refused
+      else if o == "useful" then some .useful else if o == "nxdomain" then some .nxdomain
+      else if o.startsWith "local:" then (parseCause (o.drop 6).toString).map Upstream.localFail else none
+    let p ← up primary; let f ← up fallback
+    match s.lookupFailure H now k with
+    | some _ =>
+      let req : Req := ⟨true, k.cd, if opt then some ⟨1232, true, []⟩ else none⟩
+      some (s, "hit upstream=0 " ++ fmtResp (response (some req)))
+    | none =>
+      let o := failoverWrite p f
+      let s' := s.serveViaFailover H now k p f
+      some (s', s!"miss upstream=1 fallback={if o.fallbackAsked then 1 else 0} rcode={o.rcode} {lenLookup s' now k}")
   | ["wserve", n, t, c, cd, opt, now] => do
     -- a wire-born request: the packed name is what the decoder re-spells (case kept, rooted);
     -- served without upstream iff the shared audience has an active exact / ancestor-zone failure
